@@ -164,6 +164,18 @@ func c02escape(c *core.Ctx) {
 			c.Tabled(R, key, pos, what, r)
 			continue
 		}
+		// the same method after its receiver changed between value and pointer
+		alt := ""
+		switch {
+		case strings.HasPrefix(key, "(*"):
+			alt = "(" + key[2:]
+		case strings.HasPrefix(key, "("):
+			alt = "(*" + key[1:]
+		}
+		if r, ok := escapeTable[alt]; ok && alt != "" && c.P.FindDecl(strings.SplitN(alt, "#", 2)[0]) == nil {
+			c.Tabled(R, key, pos, what, r+" (tabled as "+alt+", receiver kind changed)")
+			continue
+		}
 		// the same panic after its statements were moved into / out of a helper of the package:
 		// identified by what is thrown (the error of which call, or which error code)
 		k2 := panicOrigin(h.site)
